@@ -928,7 +928,41 @@ func typeSwitches(c *Ctx, fn *ssa.Function) *typeSwitchInfo {
 	if tinfo == nil {
 		return info
 	}
+	// `if typ == K1 || typ == K2 { ... }`: a one-clause switch written as an if (an arm hoisted out of the switch)
+	var eqLabels func(e ast.Expr) ([]int64, bool)
+	eqLabels = func(e ast.Expr) ([]int64, bool) {
+		e = ast.Unparen(e)
+		be, ok := e.(*ast.BinaryExpr)
+		if !ok {
+			return nil, false
+		}
+		switch be.Op {
+		case token.LOR:
+			a, ok1 := eqLabels(be.X)
+			b, ok2 := eqLabels(be.Y)
+			return append(a, b...), ok1 && ok2
+		case token.EQL:
+			x, y := be.X, be.Y
+			if v, ok := tinfo.Types[x]; ok && v.Value != nil {
+				x, y = y, x
+			}
+			tx, ok1 := tinfo.Types[x]
+			ty, ok2 := tinfo.Types[y]
+			if !ok1 || !ok2 || ty.Value == nil || !typeIs(tx.Type, pkgPath("internal/format"), "Type") {
+				return nil, false
+			}
+			k, exact := constant.Int64Val(constant.ToInt(ty.Value))
+			return []int64{k}, exact
+		}
+		return nil, false
+	}
 	ast.Inspect(fd.Body, func(n ast.Node) bool {
+		if ifs, ok := n.(*ast.IfStmt); ok && ifs.Init == nil {
+			if ks, ok := eqLabels(ifs.Cond); ok && len(ks) > 0 {
+				info.clauses = append(info.clauses, typeClause{pos: ifs.Body.Pos(), end: ifs.Body.End(), labels: ks, all: ks})
+			}
+			return true
+		}
 		sw, ok := n.(*ast.SwitchStmt)
 		if !ok || sw.Tag == nil {
 			return true
